@@ -33,6 +33,8 @@ TABLE filled by the harness with the bytes the real peers wrote: `enc m` = the n
 (empty when there is none), `dec raw` = the first message serialised so far (`BNet.sent`) that the table maps to `raw`
 (two clients may write messages with the same text - colliding serials - and different bytes: destination by unique or
 by well-known name; as model messages they are equal).
+  hreset <n> <firstSerial_0> …              -> ok        (`BNet.initH`: every receiver in LINE mode; then, before any step:)
+  hs up|down <c> <hex>                      -> ok        (the remaining handshake bytes in front of that wire of client <c>)
   breset <n> <firstSerial_0> …              -> ok        (from now on `call`, `resolve`, `expire`, `quiescent` act on the
                                                           byte-level state; `quiescent` answers `yes` only if `pick` agrees)
   codec <msg text> <hex bytes>              -> ok
@@ -230,7 +232,10 @@ def showPlan : ProxyPlan → String
 
 /-! ### byte level -/
 
-def bAuth : Txdbus.Proto.Auth Unit := ⟨fun a _ => (a, .cont)⟩
+/-- the authenticator of the byte-level receivers: success at the line that ends txdbus's handshake (`BEGIN` at the bus,
+`OK <guid>` at a client); only consulted in line mode (`hreset`) -/
+def bAuth : Txdbus.Proto.Auth Unit :=
+  ⟨fun a l => if l.take 5 == [66, 69, 71, 73, 78] || l.take 2 == [79, 75] then (a, .success) else (a, .cont)⟩
 
 /-- the table codec (see the header) -/
 def tableCodec (table : List (String × Txdbus.Proto.Bytes)) (sent : List (Msg V)) : WireCodec V :=
@@ -306,6 +311,19 @@ def handle (s : St) (line : String) : St × String :=
     | some n, some firsts =>
       ({ St.init with bnet := some (BNet.init n (fun j => firsts.getD j 1) ()) }, "ok")
     | _, _ => bad s "breset"
+  | "hreset" :: n :: ts =>
+    match nat? n, ts.mapM nat? with
+    | some n, some firsts =>
+      ({ St.init with bnet := some (BNet.initH n (fun j => firsts.getD j 1) () (fun _ => []) (fun _ => [])) }, "ok")
+    | _, _ => bad s "hreset"
+  | ["hs", dir, c, hex] =>
+    match nat? c, Driver.hexToBytes? hex, s.bnet with
+    | some c, some bs, some b =>
+      if dir == "up" then
+        ({ s with bnet := some { b with upWire := fun j => if j = c then bs ++ b.upWire c else b.upWire j } }, "ok")
+      else
+        ({ s with bnet := some { b with downWire := fun j => if j = c then bs ++ b.downWire c else b.downWire j } }, "ok")
+    | _, _, _ => bad s "hs"
   | ["codec", text, hex] =>
     match Driver.hexToBytes? hex with
     | some bs => ({ s with table := (text, bs) :: s.table }, "ok")
